@@ -315,7 +315,10 @@ class Exec:
         started_heads = set()
         while work:
             b, pred, p, kind = work.pop()
-            self._run_path(b, pred, p, work, started_heads)
+            try:
+                self._run_path(b, pred, p, work, started_heads)
+            except (AttributeError, TypeError, KeyError) as e:
+                raise Broken("irx: value shape not supported by the path executor in %s (%s: %s)" % (f.name, type(e).__name__, str(e)[:120]))
             if len(self.paths) > max_paths:
                 raise Broken("irx: too many paths in %s" % f.name)
         return self.paths
@@ -615,6 +618,8 @@ class Exec:
     def _decide(self, p, c):
         if isinstance(c, tuple) and c and c[0] == "icmp":
             _, pred, a, b = c
+            if not (isinstance(a, (Lf, list)) and isinstance(b, (Lf, list))):
+                return None         # a comparison of comparison results (boolean data): not decided here
             if not is_word(a) and not is_word(b):
                 sa, sb = self.subst(p, a), self.subst(p, b)
                 ka, kb = sa.const(), sb.const()
@@ -728,6 +733,10 @@ class Exec:
     def _assume(self, p, c, truth):
         if isinstance(c, tuple) and c and c[0] == "icmp":
             _, pred, a, b = c
+            if not (isinstance(a, (Lf, list)) and isinstance(b, (Lf, list))):
+                p.events.append(("cond-data", pred, truth))
+                p.conds.append(("data", None, truth))
+                return None
             if not is_word(a) and not is_word(b):
                 d = self._divnorm(p, self.subst(p, a.add(b, -1)))
                 p.conds.append((pred, d, truth))
@@ -921,6 +930,11 @@ class Exec:
         if op in ("zext", "sext", "trunc"):
             a = self.val(p, o[0])
             w = I.bits
+            if isinstance(a, tuple):
+                # a comparison result used as a number
+                dec = self._decide(p, a)
+                p.env[k] = Lf.c(int(dec)) if dec is not None else [gf2.TOP] * w
+                return
             if is_word(a):
                 p.env[k] = gf2.wzext(a, w) if op == "zext" else (gf2.wsext(a, w) if op == "sext" else gf2.wtrunc(a, w))
             elif op == "trunc" and self.subst(p, a).const() is None and w < (I.get("src_bits") or 64):
